@@ -4,3 +4,5 @@ pub mod c01_offer;
 pub mod c01_signed;
 pub mod jose_headers;
 pub mod mutate;
+pub mod sd_fixtures;
+pub mod vc_fixtures;
